@@ -164,7 +164,7 @@ inductive Micro (V : Type) where
 /-- reader state: the graph and the input values collected so far (newest last) -/
 def micro (F : Nat) (i : Nat) (s : SNode V) : Graph V × List V → Micro V → Graph V × List V
   | (g, vals), .pull d => ((Eval F g d).1, vals ++ [val (Eval F g d).1 d])
-  | (g, vals), .finish => (g.set i (.struct (s.executed g vals)), vals)
+  | (g, vals), .finish => (g.set i (.struct (s.executed g (vals.map some))), vals)
   | (g, vals), .update p v => ((seqStep F g (.update p v)).1, vals)
 
 def microRun (F : Nat) (i : Nat) (s : SNode V) (st : Graph V × List V) (ms : List (Micro V)) : Graph V × List V :=
@@ -210,7 +210,7 @@ inductive GExec {σ : Type} (g0 : σ) : GSys σ → Prop
     starting in state `g`: one `.Value()` pull per dependency (each followed by reading the value
     the owner keeps locally), then the store with the values read -/
 def artifactTrace (F : Nat) (i : Nat) (s : SNode V) : Graph V → List Nat → List V → List (Graph V → Graph V)
-  | _, [], vals => [fun g => g.set i (.struct (s.executed g vals))]
+  | _, [], vals => [fun g => g.set i (.struct (s.executed g (vals.map some)))]
   | g, d :: ds, vals =>
     (fun g => (Eval F g d).1) :: artifactTrace F i s (Eval F g d).1 ds (vals ++ [val (Eval F g d).1 d])
 
